@@ -562,8 +562,17 @@ def oracle(case):
         labels[0], labels[1] = 1, 0
     gnames = case["gnames"]
     groups = rng.choice(gnames, size=n)
+    if case.get("longest_group_has_no_positives") and n >= 3:
+        longest = max(gnames, key=len)
+        groups[2] = longest
+        labels[groups == longest] = 0
+        groups[0], labels[0] = min(gnames, key=len), 1          # both classes stay non-empty
     sc, ec = case["sc"], case["ec"]
     g = GroupScores.from_labels(labels, scores, groups, score_class=sc, equal_class=ec)
+    if case.get("longest_group_has_no_positives"):
+        # label arrays given per class as plain lists: their string widths differ between the classes
+        g = GroupScores(pos=scores[labels == 1].tolist(), neg=scores[labels != 1].tolist(), pos_groups=groups[labels == 1].tolist(), neg_groups=groups[labels != 1].tolist(),
+                        score_class=sc, equal_class=ec)
     info = f"[{case}]"
     pairs = lambda s, gg: sorted(zip(np.asarray(s).tolist(), np.asarray(gg).tolist()))
     if pairs(g.pos, g.pos_groups) != pairs(scores[labels == 1], groups[labels == 1]) or pairs(g.neg, g.neg_groups) != pairs(scores[labels != 1], groups[labels != 1]):
@@ -602,8 +611,10 @@ def oracle(case):
         for rep in range(case["reps"]):
             try:
                 b = g.bootstrap_sample(cfg)
-            except ValueError as e:
-                if strat == "by_group" and "a must be greater than 0" in str(e) or "Cannot" in str(e):
+            except (ValueError, ZeroDivisionError) as e:
+                # the property is stated "where every sampled stratum is non-empty": a group lacking a class under by_group sampling is out of scope
+                lacks = any(len(g[name].pos) == 0 or len(g[name].neg) == 0 for name in g.groups)
+                if strat == "by_group" and (lacks or "a must be greater than 0" in str(e)) or "Cannot" in str(e):
                     continue
                 raise
             if not (set(pairs(b.pos, b.pos_groups)) <= src_pairs_p and set(pairs(b.neg, b.neg_groups)) <= src_pairs_n):
@@ -650,8 +661,12 @@ def bounded(chk):
                 for sc, ec in (("pos", "pos"), ("neg", "neg"), ("pos", "neg")):
                     items.append({"n": n, "gnames": gnames, "sc": sc, "ec": ec, "seed": chk.seed * 1000 + seed, "ties": seed % 3 == 2, "samplers": samplers, "reps": 5})
         items.append({"n": 400, "gnames": ["a", "b"], "sc": "pos", "ec": "pos", "seed": chk.seed * 1000 + seed, "ties": False,
-                      "samplers": [("dynamic", None), ("dynamic", "by_label"), ("single_pass", "by_group")], "reps": 2})
-    chk.bounded["bound"] = "2..30 (and 400) labelled scores, 1..3 groups (groups may lack a class), ties on every third seed, 3 configurations, every sampling x stratification mode incl. by_group, 5 samples each"
+                      "samplers": [("dynamic", None), ("dynamic", "by_label"), ("dynamic", "by_group"), ("replacement", "by_group"), ("single_pass", "by_group")], "reps": 2})
+        # group names of different lengths, the longest-named group has no positives (label arrays of the two classes have different widths)
+        for n in (8, 30):
+            items.append({"n": n, "gnames": ["a", "ctrl-group"], "sc": "pos", "ec": "neg", "seed": chk.seed * 1000 + seed, "ties": False, "samplers": samplers, "reps": 5,
+                          "longest_group_has_no_positives": True})
+    chk.bounded["bound"] = "2..30 (and 400) labelled scores, 1..3 groups (groups may lack a class), ties on every third seed, 3 configurations, every sampling x stratification mode incl. by_group (also dynamic above the single-pass switch), group names of different lengths with a class missing in the longest-named group, 5 samples each"
     chk.bounded["rule"] = "seeded"
     run_bounded(chk, items, eval_items)
     chk.samples.append({"bounded-case": items[5]})
